@@ -1084,6 +1084,12 @@ func (r *Raft) sendAppendEntries(id string, address string, numResponses *int, r
 		return
 	}
 
+	// Ignore the response if the request was sent in a previous term: it says nothing
+	// about the log of the follower in the current term.
+	if request.Term != r.currentTerm {
+		return
+	}
+
 	// Become a follower if a follower has a more up-to-date term.
 	if response.Term > r.currentTerm {
 		r.becomeFollower(id, response.Term)
@@ -1699,6 +1705,11 @@ func (r *Raft) sendInstallSnapshot(id, address string) {
 	r.mu.Lock()
 
 	if follower.snapshot == nil || err != nil {
+		return
+	}
+
+	// Ignore the response if the request was sent in a previous term.
+	if request.Term != r.currentTerm {
 		return
 	}
 
